@@ -479,6 +479,10 @@ func c08Special(t *engine.T) {
 		c.Set("fnc", func() int { return 1 })
 		c.Set("flt", 1.5)
 		c.Set("bl", true)
+		c.Set("blf", false)
+		c.Set("estr", "")
+		c.Set("ehtml", template.HTML(""))
+		c.Set("i0", 0)
 		return c
 	}
 	for _, e := range []string{"nil", "nsl", "nmap", "nptr", "nope"} {
@@ -503,7 +507,7 @@ func c08Special(t *engine.T) {
 			})
 		}
 	}
-	for _, e := range []string{"i5", "str", "strct", "fnc", "flt", "bl", "5", `"abc"`, "true", "1.5"} {
+	for _, e := range []string{"i5", "str", "strct", "fnc", "flt", "bl", "5", `"abc"`, "true", "1.5", "false", `""`, "blf", "estr", "ehtml", "i0", "0"} {
 		src := `A<%= for (k, v) in ` + e + ` { %>x<% } %>B`
 		t.Case("non-iterable "+q(src), true, func() (string, *engine.Fail) {
 			out, err := Render(src, mk())
